@@ -106,6 +106,10 @@ def run_item(run_one, params, sidx, prefix, expect, budgets, st, deadline=None, 
             if 'deadline' not in st.caps:
                 st.caps.append('deadline')
             return
+        if st.n_viol >= 40:
+            if 'stopped after 40 violations in one subtree' not in st.caps:
+                st.caps.append('stopped after 40 violations in one subtree')
+            return
         pre, exp = stack.pop()
         ch = Chooser(pre, exp)
         try:
@@ -151,7 +155,7 @@ def run_item(run_one, params, sidx, prefix, expect, budgets, st, deadline=None, 
                 if len(st.violations) < 25:
                     st.violations.append((sum(acc.values()), len(ch.choices), sidx, list(ch.choices),
                                           [(k, n) for (k, n, _c) in ch.points], v))
-        if st.execs <= 3 and obs.get('sample') is not None and len(st.samples) < 3:
+        if obs.get('sample') is not None and len(st.samples) < 3 and (st.execs == 1 or any(ch.choices) or (not ch.choices and st.execs <= 3)):
             st.samples.append({'scenario': sidx, 'choices': list(ch.choices), 'case': obs.get('sample')})
         # replay-determinism re-run: first, every 97th and every failing execution
         if failing or st.execs == 1 or st.execs % 97 == 0:
@@ -227,6 +231,10 @@ def explore(scenarios, run_one, budgets=None, split=0, deadline_s=None, known_id
     with ctx.Pool(min(workers, len(chunks))) as pool:
         for st in pool.imap_unordered(_work_many, chunks):
             total.merge(st)
+            if total.n_viol >= 400:
+                total.caps.append('exploration stopped early after %d violations' % total.n_viol)
+                pool.terminate()
+                break
     return total
 
 
